@@ -367,17 +367,23 @@ func (t *FatTeddy) FindMatch(haystack []byte, start int) (int, int) {
 
 	// Process candidates
 	for pos != -1 {
-		// Iterate through all set bits in bucket mask
+		// Every bucket that has a literal at this position is checked and the literal
+		// that comes first in pattern order wins: the prefilter may answer for the whole
+		// alternation (IsComplete), whose semantics are leftmost-first, and buckets are
+		// assigned round-robin, so bucket order is not pattern order.
+		best := -1
 		for bucketMask != 0 {
 			bucket := bits.TrailingZeros16(bucketMask)
-			bucketMask &^= 1 << bucket
+			bucketMask &^= 1 << bucket // Clear the bit
 
 			matchPos, patternID := t.verifyBucket(haystack[accumulatedOffset:], pos, bucket)
-			if matchPos != -1 && patternID >= 0 && patternID < len(t.patterns) {
-				matchStart := start + accumulatedOffset + matchPos
-				matchEnd := matchStart + len(t.patterns[patternID])
-				return matchStart, matchEnd
+			if matchPos != -1 && patternID >= 0 && patternID < len(t.patterns) && (best == -1 || patternID < best) {
+				best = patternID
 			}
+		}
+		if best >= 0 {
+			matchStart := start + accumulatedOffset + pos
+			return matchStart, matchStart + len(t.patterns[best])
 		}
 
 		nextSearchStart := accumulatedOffset + pos + 1
